@@ -11,7 +11,7 @@
         t_cmp   : CmpPrefix3 = strncmp(c_label[0],"end",3)==0 || strncmp(c_label[0],"END",3)==0
                   CmpExact   = strcmp (c_label[0],"end")==0   || strcmp (c_label[0],"END")==0
    A C string is the list of its bytes before the NUL. *)
-From Coq Require Import ZArith List Bool.
+From Coq Require Import ZArith List Bool String.
 Import ListNotations.
 Local Open Scope Z_scope.
 
@@ -65,3 +65,45 @@ Definition w_endwall : list Z := [101; 110; 100; 119; 97; 108; 108].
 Definition w_ENDPLATE : list Z := [69; 78; 68; 80; 76; 65; 84; 69].
 Definition w_empty : list Z := [].
 Definition w_lead : list Z := [32; 108; 101; 97; 100].
+
+(* ------------------------------------------------------------------------------------------------------------------
+   The twenty look-alike blocks of the module procedures cg_goto_f / cg_gorel_f (cgns_f.F90): statement by statement as
+   translators/c20f_iface.py reads them (Gen_C20f.goto_f_stmts, gorel_f_stmts).  Block k must be guarded by PRESENT(i_k) and
+   forward UserDataName_k and i_k -- a block that forwards i_5 in the sixth position is a different list. *)
+Inductive gcallee := CGoto | CGorel.
+Inductive gstmt :=
+  | GIfPresent (k : Z)                        (* IF (PRESENT(i_k)) THEN *)
+  | GIfNotPresent (k : Z)                     (* IF (.NOT. PRESENT(i_k)) THEN *)
+  | GElse | GEndIf | GReturn
+  | GRetIfErr                                 (* IF (ier .NE. 0) RETURN *)
+  | GCall (c : gcallee) (name idx : Z)        (* ier = INT(cg_goto_fc1 / cg_gorel_fc1(INT(fn,C_INT) [, INT(B,C_INT)],
+                                                 TRIM(UserDataName_name)//C_NULL_CHAR, INT(i_idx,C_INT) | 0_C_INT));  idx = 0: the literal *)
+  | GOther (text : string).
+
+Definition gcallee_eqb (a b : gcallee) : bool := match a, b with CGoto, CGoto | CGorel, CGorel => true | _, _ => false end.
+Definition gstmt_eqb (a b : gstmt) : bool :=
+  match a, b with
+  | GIfPresent x, GIfPresent y | GIfNotPresent x, GIfNotPresent y => x =? y
+  | GElse, GElse | GEndIf, GEndIf | GReturn, GReturn | GRetIfErr, GRetIfErr => true
+  | GCall c n i, GCall d m j => gcallee_eqb c d && (n =? m) && (i =? j)
+  | _, _ => false                              (* GOther never equals anything *)
+  end.
+Fixpoint gstmts_eqb (a b : list gstmt) : bool :=
+  match a, b with
+  | [], [] => true
+  | x :: ar, y :: br => gstmt_eqb x y && gstmts_eqb ar br
+  | _, _ => false
+  end.
+
+(* block k >= 2 of either procedure *)
+Definition block (k : Z) : list gstmt := [GIfPresent k; GCall CGorel k k; GRetIfErr; GEndIf].
+Definition blocks_from_2 : list gstmt := flat_map block (map Z.of_nat (seq 2 19)).
+Definition expected_goto : list gstmt :=
+  [GIfNotPresent 1; GCall CGoto 1 0; GReturn; GElse; GCall CGoto 1 1; GRetIfErr; GEndIf] ++ blocks_from_2.
+Definition expected_gorel : list gstmt :=
+  [GIfPresent 1; GCall CGorel 1 1; GRetIfErr; GElse; GCall CGorel 1 0; GReturn; GEndIf] ++ blocks_from_2.
+Definition goto_blocks_ok (g r : list gstmt) : bool := gstmts_eqb g expected_goto && gstmts_eqb r expected_gorel.
+
+(* what a forwarding call may look like: the k-th name with the k-th index, or the first name with the literal 0 *)
+Definition call_forwards_own_pair (s : gstmt) : bool :=
+  match s with GCall _ n i => (i =? n) || ((n =? 1) && (i =? 0)) | _ => true end.
